@@ -590,10 +590,80 @@ def minsum_correction_evaluated(ci):
     return OK, f"composition of {len(body)} statement(s) equals m * scaling_factor - sign(.) * offset on {len(pts)} configurations (scaling 1 and offset 0 included)"
 
 
+def minsum_tabulated(repo: Repo):
+    """MinSumLDPCDecoder.compute_cv (the class's override, which delegates to compute_cv_minsum; class helpers followed)
+    evaluated with own arithmetic on two Tanner graphs whose tables are computed by the checker from H, two rows of
+    variable-to-check messages, and four (scaling, offset) configurations: the message on edge e of check c must be
+    (product of the signs of the OTHER edges of c) * (minimum magnitude of the other edges), times the scaling factor,
+    reduced in magnitude by the offset - 0 for a check of degree 1.  Returns (status, detail) or (None, reason)."""
+    from ..constfold import PySeq, Unfoldable
+    from ..frag import FragRaise, FragReturn, run_fragment
+
+    ci = repo.cls(MS, "MinSumLDPCDecoder")
+    top = ci.methods.get("compute_cv") or ci.methods.get("compute_cv_minsum")
+    if top is None:
+        return None, "compute_cv not found"
+    funcs = {f"self.{nm}": m.node for nm, m in ci.methods.items() if nm not in ("forward", "__init__", top.name)}
+    cases = 0
+    for H, not_ldpc in (([[1, 1, 1, 0, 0], [0, 1, 0, 1, 0], [1, 1, 0, 0, 1], [0, 0, 0, 1, 0]], True), ([[1, 1, 0, 1, 0, 0], [0, 1, 1, 0, 1, 0], [1, 0, 1, 0, 0, 1]], False)):
+        n_c, n_v = len(H), len(H[0])
+        cv_map = [[] for _ in range(n_c)]
+        e = 0
+        for v in range(n_v):
+            for c in range(n_c):
+                if H[c][v]:
+                    cv_map[c].append(e)
+                    e += 1
+        cdeg = [sum(r) for r in H]
+        groups = []
+        for i, d in enumerate(cdeg):
+            if groups and cdeg[groups[-1][-1]] == d:
+                groups[-1].append(i)
+            else:
+                groups.append([i])
+        order = [x for c in range(n_c) for x in cv_map[c]]
+        cv_order = [0] * e
+        for k_, x in enumerate(order):
+            cv_order[x] = k_
+        ext_ce = PySeq([[[x for k_, x in enumerate(m) if k_ != j] for j in range(len(m))] if len(m) > 1 else [] for m in cv_map])
+        vcs = [[((-1) ** (i * 3 + r)) * (0.3 + 0.37 * ((i * 7 + r * 5) % 11)) for i in range(e)] for r in range(2)]
+        for sf, off in ((1.0, 0.0), (0.75, 0.0), (1.0, 0.1), (0.8, 0.25)):
+            attrs = {"self.cv_group": PySeq([PySeq(g) for g in groups]), "self.check_degree": list(cdeg), "self.chk_degree": list(cdeg), "self.ext_ce": ext_ce, "self.cv_order": list(cv_order), "self.not_ldpc": not_ldpc, "self.scaling_factor": sf, "self.offset": off, "self.device": "cpu", "self.num_edges": e, "self.normalized": sf != 1.0, "self.arctanh": True}
+            try:
+                run_fragment(top.body, {"vc": [list(r) for r in vcs]}, attrs, funcs=funcs, materialise=True, max_steps=4000000, attrs_live=True)
+                return None, "no value returned"
+            except FragReturn as ret:
+                got = ret.value
+            except (Unfoldable, FragRaise, TypeError, IndexError, ValueError, KeyError) as exc:
+                return None, str(exc)
+            if not (isinstance(got, list) and len(got) == 2 and all(isinstance(r, list) and len(r) == e and all(isinstance(x, (int, float)) and not isinstance(x, bool) for x in r) for r in got)):
+                return None, f"the result is not a (2, {e}) block of messages"
+            for r in range(2):
+                for c in range(n_c):
+                    for j, edge in enumerate(cv_map[c]):
+                        oth = [vcs[r][x] for k_, x in enumerate(cv_map[c]) if k_ != j]
+                        if oth:
+                            sg = 1
+                            for x in oth:
+                                sg *= (x > 0) - (x < 0)
+                            m_ = sg * min(abs(x) for x in oth) * sf
+                            want = m_ - ((m_ > 0) - (m_ < 0)) * off
+                        else:
+                            want = 0.0
+                        if abs(got[r][edge] - want) > 1e-9:
+                            return VIOLATION, f"H = {H}, scaling {sf}, offset {off}: the message to edge {edge} of check {c} (other incoming messages {[round(x, 3) for x in oth]}) is {got[r][edge]:.6g}; sign product * minimum magnitude, scaled by {sf} and reduced by the offset {off}, is {want:.6g}"
+                        cases += 1
+    return OK, f"{cases} check-to-variable messages on two graphs (irregular with a degree-1 check, regular), four (scaling, offset) configurations: sign product times minimum magnitude of the other edges, scaled, then offset"
+
+
 def rule_minsum(repo: Repo, rep: Report) -> int:
     ci = repo.cls(MS, "MinSumLDPCDecoder")
     fi = repo.method(ci, "compute_cv_minsum")
     n = 0
+    mst_, md_ = minsum_tabulated(repo)
+    if mst_ is not None:
+        rep.add("MINSUM", fi, "min-sum check update evaluated on two Tanner graphs and four (scaling, offset) configurations", mst_, md_, node=fi.node)
+        return 12
     ov = repo.method(ci, "compute_cv")
     rets = [s for s in ast.walk(ov.node) if isinstance(s, ast.Return)]
     if len(rets) == 1 and isinstance(rets[0].value, ast.Name) and [unparse(s_.value) for s_ in assigns(ov, rets[0].value.id)][:1] == ["self.compute_cv_minsum(vc)"]:
